@@ -222,7 +222,10 @@ def raw(b):
 
 
 def step(c, sid, seq, p, minor=0, fl=1, ty=0, pws=None):
-    return {"c": c, "sid": sid, "seq": seq, "ty": ty, "min": minor, "fl": fl, "p": p, "pws": pws or []}
+    d = {"c": c, "sid": sid, "seq": seq, "ty": ty, "min": minor, "fl": fl, "p": p, "pws": pws or []}
+    if isinstance(p, dict) and p.get("cut"):
+        d["cut"] = p["cut"]          # drop octets from the end of the encoded body
+    return d
 
 
 # ---- session scripts: list of (packet, minor, passwords carried) per session ------------------------
